@@ -13,7 +13,7 @@ SRC_DEPS = {"Overlaps": ["Overlaps"], "Intersection": ["Intersection"], "Extend"
 SRC_MODULES = [T + "Src." + n for n in SRC_DEPS]
 CFG = {
     "id": "C04",
-    "lean_modules": ["GeomV.C04.Proofs"] + TIE_MODULES + SRC_MODULES,
+    "lean_modules": ["GeomV.C04.Proofs", "GeomV.C04.ProofsNaN"] + TIE_MODULES + SRC_MODULES,
     "exe": "geomv_c04",
     "go_cmd": "c04",
     "stages": ["go:gen", "go:impl", "lean:judge"],
@@ -26,6 +26,9 @@ CFG = {
         "C04_bounds_noncanon_counterexample",
         # the judge's decidable checks are the semantic specification
         "C04_spec_envelope", "C04_spec_envelopeSet", "C04_spec_join", "C04_spec_sharePoint", "C04_spec_intersection", "C04_spec_empty",
+        # NaN coordinates (outside the quantifier): what Bounds() is then — the plain math.Min/Max fold per axis, for any
+        # member structure — from algebraic laws of Min/Max/< that float64-with-NaN (NV) is proved to satisfy
+        "C04_nan_bounds_flat", "NV.nlaws", "C04_nan_bounds", "C04_nan_axis_min", "C04_nan_axis_max",
         # the executed coordinate type is an instance of the theorems
         "C04_exec", "FKey.instances_agree",
         # T1: definitions regenerated from bounds.go / point.go of the tree under test = the model's (rfl)
@@ -56,8 +59,8 @@ CFG = {
     ]],
     "trusted_base": [
         "Lean 4.33.0 kernel; axioms of every theorem printed by #print axioms must be within {propext, Classical.choice, Quot.sound}",
-        "T1: harness/cmd/c04/extract.go (go/ast, ~600 lines, translation table in its header) regenerates lean/GeomV/C04/Gen.lean from "
-        "bounds.go/point.go/multipoint.go/linestring.go/multilinestring.go/polygon.go/multipolygon.go of the tree under test on every run; Ties/*.lean prove Gen.f = Model.f for 33 functions (by rfl: bounds.go box functions, Point.Equals, Bounds()/Len() of the non-collection types; by proof: the Points() closures of Point/MultiPoint/LineString/MultiLineString/Polygon/MultiPolygon rendered with whileFuel loops); a function "
+        "T1: harness/cmd/c04/extract.go + closures.go + collection.go (go/ast, ~1700 lines, translation tables in their headers) regenerate lean/GeomV/C04/Gen.lean from "
+        "bounds.go/point.go/multipoint.go/linestring.go/multilinestring.go/polygon.go/multipolygon.go/geometrycollection.go of the tree under test on every run; Ties/*.lean prove Gen.f = Model.f for 37 functions (by rfl: bounds.go box functions, Point.Equals, Bounds()/Len() of the non-collection types; by proof: the Points() closures of all eight types - loops rendered with whileFuel, (*Bounds).Points with defer+switch - and GeometryCollection.Len/Bounds/Points, whose calls on interface values and on the captured func value are PARAMETERS of the rendered definitions, instantiated in the tie with the model's dispatch lenG/boundsG/init/next; trusted there: Go's dynamic dispatch on the eight types is that match, and a func value used only as p()/p = X.Points() can be threaded as a value); a function "
         "outside the translatable subset makes Gen.lean fail to elaborate and is reported by name",
         "model lean/GeomV/C04/Model.lean (bounds.go; Len/Points/Bounds of the eight types, closures as state machines with faulting "
         "indexing) is tied to /repo by the correspondence run on every check: Len, the drained Points() sequence (bit-exact) or the "
@@ -67,7 +70,9 @@ CFG = {
         "harness/cmd/c04 + lean driver + lib/vcheck.py transport inputs faithfully; reading of the property into Spec.lean",
     ],
     "assumptions": [
-        "no NaN coordinates (outside the property's quantifier; NaN lines would be skipped)",
+        "NaN coordinates are outside the property's quantifier: geometries with NaN are judged on Len/Points as usual (C04_len/C04_points do not depend on "
+        "the coordinate type) and on Bounds() only by correspondence with the model run at NV FKey (math.Min: -Inf if either is -Inf, else NaN if either "
+        "is NaN; math.Max dually; comparisons with NaN false) - DIFF, never SPEC; C04_nan_bounds/C04_nan_axis_* say what that is. Box lines with NaN are skipped",
         "no nil interface value inside a GeometryCollection (nil is not one of the eight types; model and code both fault there, checked as correspondence only)",
         "C04_overlaps, C04_intersection, C04_extend_join, C04_extend_laws_sets hold for ALL boxes (empty, inverted, infinite); "
         "C04_extend_laws (equations between boxes rather than point sets) for canonical boxes (has a point, or is NewBounds()); "
@@ -81,7 +86,8 @@ CFG = {
             "coordinates from {small ints (ties), -0, +0, +-Inf, +-MaxFloat, subnormals, random non-NaN patterns}; box catalogue: every "
             "pair of 1-D intervals over {-Inf,-0,0,1,2,3,+Inf} (disjoint, touching, nested, identical, degenerate, inverted=empty) on one "
             "axis crossed with random intervals on the other, for Overlaps/Intersection/Extend in both argument orders; random triples for "
-            "associativity. distinct = distinct input line; non-trivial = every class except skipped-nan",
+            "associativity; long slices (65..4097) in which every vertex extends the box; 1 in 25 geometries again with a fifth of the coordinates NaN "
+            "(class -nan); cc lines: 8 concurrent callers on private copies under 8 hammering goroutines (class conc-). distinct = distinct input line; non-trivial = every class except skipped-nan",
     "trivial_class": r"^skipped",
     "timeout": {"quick": 600, "thorough": 3000},
     "explanation": "SPEC verdicts come from Spec.lean's decidable checks (proved equivalent to the semantic specification, "
